@@ -12,6 +12,9 @@ Lemma len_nil {A} : len (@nil A) = 0. Proof. reflexivity. Qed.
 Lemma len_cons {A} (x : A) l : len (x :: l) = 1 + len l.
 Proof. unfold len. cbn [length]. lia. Qed.
 
+Lemma skipn_skipn' {A} n a (d : list A) : skipn a (skipn n d) = skipn (n + a) d.
+Proof. revert d. induction n as [|n IH]; intros d; [reflexivity|]. destruct d; [rewrite !skipn_nil; reflexivity|]. cbn [skipn Nat.add]. apply IH. Qed.
+
 (* the clamped slices are the plain firstn/skipn ones *)
 Lemma skipn_clamp {A} (d : list A) a : skipn (Z.to_nat (Z.min a (len d))) d = skipn (Z.to_nat a) d.
 Proof.
